@@ -400,7 +400,15 @@ def rule_finalized_predicate(ctx: Ctx, rep: Report) -> None:
     rep.floor(rule, 3)
 
 
+def rule_no_stale_cache_(ctx: Ctx, rep: Report) -> None:
+    """C18.no_stale_cache: a memoized mutable answer is never handed out or edited; a cached_property lives only in a frozen dataclass (see sigcommon.rule_no_stale_cache)."""
+    from rules.sigcommon import rule_no_stale_cache
+    rule_no_stale_cache(ctx, rep, "C18.no_stale_cache", ('btclib.tx', 'btclib.psbt', 'btclib.amount'), 1)
+
+
 RULES = [
+    ("C18.no_stale_cache", rule_no_stale_cache_),
+
     ("C18.finalized_predicate", rule_finalized_predicate),
     ("C18.params_forwarded", rule_params_forwarded_),
     ("C18.size_vs_serialize", rule_size_vs_serialize),
@@ -414,6 +422,10 @@ RULES = [
 ]
 
 CONTROLS = [
+    {"rule": "C18.no_stale_cache", "name": "the weight of a mutable transaction is computed once", "module": "btclib.tx.tx",
+     "edit": lambda ctx: M.sub_module_expr(ctx, "btclib.tx.tx", lambda n: isinstance(n, ast.Name) and n.id == "property" and isinstance(parent(n), ast.FunctionDef) and parent(n).name == "weight",
+                                           "__import__('functools').cached_property")},
+
     {"rule": "C18.finalized_predicate", "name": "the size estimate asks the final script_sig alone", "module": "btclib.psbt.psbt_size",
      "edit": lambda ctx: M.sub_expr(ctx, "btclib.psbt.psbt_size.estimated_input_sizes", M.is_text("psbt_in.final_script_sig or psbt_in.final_script_witness"), "psbt_in.final_script_sig")},
     {"rule": "C18.vsize_ceil", "name": "the fee owed is priced on weight // 4", "module": "btclib.tx_builder",
